@@ -2,6 +2,8 @@
 
 package processor
 
+import sutils "github.com/siglens/siglens/pkg/segment/utils"
+
 // C05 lemmas: the numeric comparator is a strict weak order (so that
 // sort.Slice with it yields a sequence in which adjacent results are never
 // out of order, independent of the input order).  Proved from the contract of
@@ -45,4 +47,20 @@ func verifLemmaCompareFloatTransitive(a, b, c float64) bool {
 		return false
 	}
 	return true
+}
+
+// The key comparator is antisymmetric on typed keys (so that "next key only
+// on EQUAL" is well defined whichever record is passed first).  Proved from
+// the contract of compareValues only.
+//@ func verifLemmaCompareValuesAntisymmetric
+//@   props C05
+//@   lemma
+//@   requires typedKey(a, op) && typedKey(b, op)
+//@   ensures result
+//@ end
+
+func verifLemmaCompareValuesAntisymmetric(a, b *sutils.CValueEnclosure, asc bool, op string) bool {
+	ab := compareValues(a, b, asc, op)
+	ba := compareValues(b, a, asc, op)
+	return (ab == LESS) == (ba == GREATER) && (ab == EQUAL) == (ba == EQUAL) && (ab == GREATER) == (ba == LESS)
 }
